@@ -2,9 +2,13 @@
 import lib_C09 as L
 
 ID = "C09"
+PROOF_FILES = ["C09", "C09Inv", "C09Names", "C09Reach", "C09Sign", "C09Rel", "C09Two", "C09Inst", "C09Pipe"]
 THEOREM = ("Ufo2ft.C09.C09_joint / C09_joint_step / C09_decompose / C09_skipExport / C09_flatten / C09_pipeline_otf / "
            "C09_cu2qu_partial / C09_sparse_partial / C09_placeholders / C09_notdef / C09_sign_witness "
-           "(+ reverseContour_shape, decomposeGlyph_shape, flattenGlyphComps_shape: the operations act on shapes)")
+           "(+ reverseContour_shape, decomposeGlyph_shape, flattenGlyphComps_shape: the operations act on shapes); pipeline level "
+           "(Props/C09Pipe.lean): C09_sparse (holdsSparse of the model's whole pipeline, any Instantiator) / C09_twoByTwo (holdsTwoByTwo, "
+           "TrueType pipeline without Instantiator) / C09_pipeline_inst_partial (alike + signStable sources stay alike WITH an Instantiator, "
+           "plain configurations) / signStable2_sound, signStable2_complete, C09_signStable_witness / reaches_of_refp")
 N = {"quick": 220, "thorough": 4000}
 RULE = ("families of 2-4 sources: a random master (line/quadratic/cubic contours on a 1/8 grid, component graphs of depth<=3 with "
         "F2Dot14-exact matrices of both determinant signs) + dyadic perturbations that keep the structure; streams: a component whose "
@@ -87,6 +91,14 @@ def run(case):
 
 def agree(req, rep):
     m, o = rep["model"], req["obs"]
+    # which pipeline-level theorems apply to this family (decidable hypotheses evaluated by the driver): shown in the evidence
+    hyp = (rep.get("info") or {}).get("hyp") if isinstance(rep.get("info"), dict) else None
+    if hyp and not any(t.startswith("thm:") for t in req.get("tags", [])):
+        for k in ("C09_sparse", "C09_twoByTwo", "C09_pipeline_inst_partial"):
+            req["tags"].append("thm:%s:%s" % (k, "applies" if hyp.get(k) else "hypotheses-not-met"))
+        for k in ("signStable", "signsEqualNonzero", "alike", "cu2quOk", "cu2quAlike", "heightsBelow", "fullMastersFull", "notdefOk", "ordersCover", "orderTopo"):
+            if not hyp.get(k):
+                req["tags"].append("hyp-false:" + k)
     if req["op"] == "needs":
         return m == o
     if m.get("err") is not None or o.get("err") is not None:
@@ -226,15 +238,33 @@ LEVEL_TEXT = ("Proved (Lean, all inputs): needs_decomposition is a set of NAMES 
               "and equal determinant signs stay alike (and point-compatible) through skipExportGlyphs, uniform custom filters, joint "
               "decomposition, per-UFO reversal and joint flattening, i.e. through the whole CFF and TrueType pre-processors without "
               "Instantiator; a witness shows that the sign hypothesis cannot be dropped and that check_for_nonmatching_components does not "
-              "provide it. Per step: ensureComposite adds only the glyph being filtered, only where absent and only if component references "
-              "tie it to that source's location; placeholders are empty, referenced and missing; '.notdef' is appended at most once. The whole "
-              "pipeline incl. on-the-fly interpolation for sparse masters (InterpolatedLayer, Variator cache, source-layer aliasing) is an "
-              "executable model compared point for point with the glyph sets of the real compilers; compatibility, jointness, equal 2x2 of "
-              "remaining components and the sparse-master content predicate are evaluated on the real output (glyph sets and compiled "
-              "glyf/CFF structure).")
+              "provide it. PIPELINE LEVEL (Props/C09Pipe.lean + C09Inv/Names/Reach/Rel/Two/Inst/Sign): (1) C09_sparse - for the model's WHOLE "
+              "interpolatable compilation (skip, custom filters interpolatable or one by one, joint decomposition, cu2qu/reversal, flattening, "
+              "makeMissingRequiredGlyphs; TrueType or CFF; with or without Instantiator, whatever its Variator cache holds; any set-iteration "
+              "orders) every master's final glyph set is '.notdef' + its layer's glyphs (minus skipped) + for a sparse source only composites "
+              "tied to them by chains of component references of the sources + empty placeholders for referenced bases, nothing skipped "
+              "survives: holdsSparse holds of the model output (the fuel-bounded `reaches` of the spec is shown complete by a pigeonhole "
+              "argument); of the interpolation only 'keeps the first operand's name, component names among the first operand's, advance "
+              "between the operands'' is used. (2) C09_twoByTwo - TrueType pipeline without Instantiator: sources agreeing on component lists "
+              "come out with equal 2x2 on every remaining component (a name outside needs_decomposition has matching 2x2 and is nowhere mixed; "
+              "a name inside is decomposed in every master; flattening and custom decomposition respect agreement on names + 2x2). (3) "
+              "C09_pipeline_inst_partial - WITH an Instantiator: sources (full or sparse) that are alike and signStable (each component's "
+              "determinant has the same non-zero sign in every two sources AND on the whole segment between the two matrices - decidable: "
+              "mixDet >= 0 on the sign's side or mixDet^2 < 4 det det; proved sound AND complete) stay alike, hence point-compatible, through "
+              "the CFF pre-processor and the TrueType pre-processor (cu2qu contract measured) in the plain configurations (no skipExportGlyphs, "
+              "no custom filters, no flattenComponents: one decomposing run, starting from the sources) provided that run's depth-sorted "
+              "iteration order is topological (orderTopo, decidable: no glyph is visited after one of its bases - ufo2ft's depth key, "
+              "computed in the first glyph set that has the glyph, does not guarantee it; false in ~3% of the generated designspace "
+              "families); a kernel-checked witness (mirror-x / mirror-y: zero matrix half-way) shows that 'equal non-zero signs' alone is "
+              "not enough. The driver evaluates "
+              "every (decidable) hypothesis on every generated family: see the tags thm:<name>:applies / hyp-false:<hypothesis> in the "
+              "distribution. The executable model is compared point for point with the glyph sets of the real compilers; compatibility, "
+              "jointness, equal 2x2 and the sparse-master predicate are evaluated on the real output (glyph sets and compiled glyf/CFF).")
 LEVEL_NOTE = ("Trusted: Lean kernel + standard axioms; correspondence harness. Partial: cu2qu's joint-conversion contract is a hypothesis "
-              "of C09_cu2qu_partial (measured on every family); the theorems about alike masters cover builds without Instantiator "
-              "(fontMath/varLib interpolation - one axis, piecewise linear - is modelled and tied by correspondence only, since the "
-              "determinant sign of an interpolated matrix is not determined by the masters' signs); the sparse-master statement is proved "
-              "per step, its pipeline-level form (holdsSparse), holdsJoint and holdsTwoByTwo are evaluated on the real output, not proved. "
-              "Four finding families are registered as proposals in harness/findings_C09.json.")
+              "of C09_cu2qu_partial / C09_pipeline_inst_partial (measured on every family: info.cu2quContract, hyp cu2quAlike) and 'cu2qu keeps "
+              "keys, names, advances, components' a hypothesis of C09_sparse / C09_twoByTwo (measured: hyp cu2quOk); C09_twoByTwo and holdsJoint "
+              "are not proved for builds with an Instantiator, and C09_pipeline_inst_partial neither beyond the first decomposing run nor for "
+              "non-topological iteration orders: once a base has been modified before its user is visited, a master that has the base sees "
+              "the modified glyph while a sparse master interpolates a stale (cached) or fresh Variator, so the views no longer agree glyph by "
+              "glyph; and matrices composed by an earlier filter need not be sign-stable (signStable is not closed under composition). "
+              "The model follows /repo fix 61a81a2 (the Instantiator reads the pre-processor's copies from the start). Four finding families are registered as proposals in harness/findings_C09.json.")
